@@ -365,6 +365,10 @@ Section Levels.
       end
     end.
 
+  (* the expression parser descends two calls per prefix operator / parenthesis and one per
+     operator: it is given three units of fuel per unit of the statement parser *)
+  Definition expr_fuel (f : nat) : nat := 3 * f.
+
   (* visitExpression returns None for a lone string literal: the statement then holds no
      expression at all *)
   Definition top_expr (e : expr) : fres expr :=
@@ -473,13 +477,13 @@ Section Levels.
         do '(cs, r2) <- parse_task_calls f' r1 ;;
         do r3 <- expect_dedent r2 ;; FOk (SParallel cs, r3)
       | DTok KLoop :: DTok KWhile :: r =>                     (* while_loop *)
-        do '(e, r1) <- parse_expr f' 0 r ;;
+        do '(e, r1) <- parse_expr (expr_fuel f') 0 r ;;
         do e' <- top_expr e ;;
         do '(body, r2) <- parse_block f' r1 ;; FOk (SWhile e' body, r2)
       | DTok KLoop :: r => parse_counting f' false r
       | DTok KCondition :: r =>                               (* condition *)
         do r1 <- expect_indent r ;;
-        do '(e, r2) <- parse_expr f' 0 r1 ;;
+        do '(e, r2) <- parse_expr (expr_fuel f') 0 r1 ;;
         do e' <- top_expr e ;;
         do r3 <- nl_plus r2 ;;
         do r4 <- expect_dedent r3 ;;
@@ -557,25 +561,31 @@ Section Levels.
       end
     end.
 
+  (* task_in?: IN INDENT (variable_definition NL+)+ DEDENT *)
+  Definition parse_task_in (f : nat) (ts : toks) : fres (list (name * vtype) * toks) :=
+    match ts with
+    | DTok KIn :: r => parse_vardef_block f r
+    | _ => FOk ([], ts)
+    end.
+
+  (* task_out?: OUT INDENT (STARTS_WITH_LOWER_C_STR NL+)+ DEDENT *)
+  Definition parse_task_out (f : nat) (ts : toks) : fres (list name * toks) :=
+    match ts with
+    | DTok KOut :: r =>
+      do r1 <- expect_indent r ;;
+      do '(ns, r2) <- parse_names f r1 ;;
+      do r3 <- expect_dedent r2 ;; FOk (ns, r3)
+    | _ => FOk ([], ts)
+    end.
+
   (* ---- task: TASK LOWER INDENT task_in? statement+ task_out? DEDENT END ---- *)
   Definition parse_task (f : nat) (ts : toks) : fres (task * toks) :=
     match ts with
     | DTok KTask :: DTok (TLower n) :: r =>
       do r0 <- expect_indent r ;;
-      do '(ins, r1) <-
-        match r0 with
-        | DTok KIn :: r' => parse_vardef_block f r'
-        | _ => FOk ([], r0)
-        end ;;
+      do '(ins, r1) <- parse_task_in f r0 ;;
       do '(body, r2) <- parse_stmts f r1 ;;
-      do '(outs, r3) <-
-        match r2 with
-        | DTok KOut :: r' =>
-          do r'' <- expect_indent r' ;;
-          do '(ns, r''') <- parse_names f r'' ;;
-          do r4 <- expect_dedent r''' ;; FOk (ns, r4)
-        | _ => FOk ([], r2)
-        end ;;
+      do '(outs, r3) <- parse_task_out f r2 ;;
       do r4 <- expect_dedent r3 ;;
       match r4 with
       | DTok KEnd :: r5 =>
